@@ -52,10 +52,10 @@ def find_assign(body, name, fname):
 
 
 def run_all(repo, outdir):
-    from . import gen_events, gen_emitret, gen_defaults, gen_pred, gen_switches, gen_pyast
+    from . import gen_events, gen_emitret, gen_defaults, gen_pred, gen_switches, gen_pyast, gen_book
 
     errs = []
-    for m in (gen_events, gen_emitret, gen_defaults, gen_pred, gen_switches, gen_pyast):
+    for m in (gen_events, gen_emitret, gen_defaults, gen_pred, gen_switches, gen_pyast, gen_book):
         try:
             for fn, text in m.generate(repo).items():
                 write_if_changed(os.path.join(outdir, fn), text)
